@@ -13,9 +13,9 @@ COMMON_SCOPE = ('Static analysis of the source of /repo (ast; nothing of plasTeX
 
 CLAIMS = {
  'C01': {
-  'not_decided': 'the token stream of a concrete input string beyond the per-cell transition table.',
-  'note': 'Trusted: CPython ast, sa/absint.py, the TeXbook ch. 8 table as worded by the property. get_let is summarised as identity.',
-  'technique': 'conditional constant propagation over (state x category x next category) cells of the tokenizer, table folding, copy-on-write on a context heap, emptiness dataflow',
+  'not_decided': 'token streams of inputs and category tables outside the enumerated family (every state x category x following characters, the ^^ forms, line ends, comments, six other tables, a table changed between two tokens); non-ASCII input; \\let aliases.',
+  'note': 'Trusted: CPython ast, sa/absint.py (incl. its lazy generator objects), the reference lexer in sa/props/c01.py written from the TeXbook ch. 8 rules as worded by the property, a model of io.StringIO. get_let is summarised as identity.',
+  'technique': 'abstract interpretation of the tokenizer as written (constructor, character reader, state machine, push-back buffers) on scripted sources and concrete category tables, compared token by token with a reference lexer; table folding; copy-on-write on a context heap',
  },
  'C02': {
   'not_decided': 'equality of the processed text with an independent TeX evaluation for arbitrary programs (value-level; declined); only the parameter plumbing named in the rules is claimed.',
@@ -29,7 +29,7 @@ CLAIMS = {
  },
  'C04': {
   'not_decided': 'that a concrete document leaves the stack at depth 1.',
-  'note': 'Trusted: CPython ast, sa/flow.py, sa/absint.py; the pairing table of push/pop functions is frozen from the reference tree with one reason per entry (private helpers are folded into their callers).',
+  'note': 'Trusted: CPython ast, sa/flow.py, sa/absint.py; the pairing table of push/pop functions is frozen from the reference tree with one reason per entry (private helpers and functions reached through dispatch tables are folded into their callers; a function that reaches the stack only through computed callees is interpreted with a recording context instead).',
   'technique': 'who-may-call table + structural counter dataflow (push/pop pairing), copy-on-write and lookup chains on a small frame heap',
  },
  'C05': {
@@ -94,8 +94,8 @@ CLAIMS = {
  },
  'C17': {
   'not_decided': 'equality of trees and files for concrete document sequences.',
-  'note': 'Trusted: CPython ast, sa/effects.py resolves class references through the static model. 11 known findings (register values, List.depth, MathShift.inEnv, article/natbib class patching, defcitealias aliases).',
-  'technique': 'whole-package effect/ownership scan with allow-table, path-sensitive balance and structural dataflow for paired writes',
+  'note': 'Trusted: CPython ast, sa/effects.py resolves class references through the static model (also through locals and loop variables bound to classes, and rows of constant tables). 11 known findings (register values, List.depth, MathShift.inEnv, article/natbib class patching, defcitealias aliases).',
+  'technique': 'whole-package effect/ownership scan with allow-table keyed by the state cell written, path-sensitive balance, abstract interpretation of the paired writes (class attributes followed by value)',
  },
  'C18': {
   'not_decided': 'collation order of arbitrary key multisets (delegated to pyuca / str.lower) and balance of the column split.',
